@@ -278,6 +278,8 @@ def items(tier, repo=None):
         yield it
     for it in clash_items():
         yield it
+    for it in literal_matrix_items(tier):
+        yield it
     if tier == 'thorough':
         # pairs of deviations on the small bases
         for bi, text in enumerate(SMALL_BASES):
@@ -349,6 +351,74 @@ def clash_items():
             yield 'clash:%s+%s:one-file' % (k1, k2), [('c.stone', 'namespace nc\n\n' + t1 + '\n' + t2)]
             yield 'clash:%s+%s:two-files' % (k1, k2), [('c1.stone', 'namespace nc\n\n' + t1), ('c2.stone', 'namespace nc\n\n' + t2)]
             yield 'clash:%s+%s:with-namespace-named-alike' % (k1, k2), [('c1.stone', 'namespace Dup\n\n' + t1), ('c2.stone', 'namespace nc\n\nimport Dup\n\n' + t2)]
+
+
+# ---------------------------------------------------------------------------
+# literal kind x declared type x position: defaults, example values, route attributes, annotation arguments, type parameters
+
+MATRIX_TYPES = ['Int32', 'UInt64', 'Int64(min_value=0)', 'Float32', 'Float64', 'Float64(min_value=0, max_value=1)', 'String', 'String(min_length=2, max_length=3)',
+                'String(pattern="[a-c]+")', 'Bytes', 'Boolean', 'Timestamp("%Y")', 'List(Int32)', 'List(String, min_items=1, max_items=2)', 'Map(String, Int32)',
+                'Map(String(min_length=2), List(Int32))', 'Ms', 'Mu', 'Mtree', 'Int32?', 'Ms?', 'List(Ms)', 'List(Int32?)', 'Aint', 'Anull', 'Alist', 'Astruct', 'AnullS', 'Void']
+MATRIX_LITERALS = ['0', '-1', '5', '1' + '0' * 400, '-1' + '0' * 400, '1.5', '-0.0', '1e400', '1e-400', '2e10', '""', '"x"', '"ab"', '"YWJj"', '"2000"', '"not a date"',
+                   'true', 'false', 'null', '[]', '[1]', '["a"]', '[[1]]', '[null]', '[1, "a"]', '{}', '{"ab": 1}', '{"a": 1}', '{"ab": [1]}', '{1: 2}', '{"ab": null}',
+                   'mv', 'nope', 'default', 'Ms', 'Int32']
+MATRIX_PREAMBLE = ('namespace mx\n\nstruct Ms\n    a Int32\n    b String = "d"\n\n    example default\n        a = 1\n\nunion Mu\n    mv\n    mw Int32\n\n    example default\n        mw = 3\n\n'
+                   'struct Mtree\n    union\n        leaf Mleaf\n    t Int32\n\n    example default\n        leaf = default\n\nstruct Mleaf extends Mtree\n    l Int32\n\n    example default\n        t = 1\n        l = 2\n\n'
+                   'alias Aint = Int32\nalias Anull = Int32?\nalias Alist = List(Int32)\nalias Astruct = Ms\nalias AnullS = Ms?\n\n')
+BAD_PATTERNS = ['a{99999999999}', '(', ')', '[', '*', '+a', 'a**', '(?P<x>a)(?P<x>b)', '\\\\', 'a{2,1}', '(?i', '\\\\1', '(?P=nope)', '[z-a]', '(?<=a+)b', '\\\\p{L}', '(?#', 'a{,}', '\\\\N{nope}',
+                '(' * 120 + 'a' + ')' * 120, '(?:' * 300 + 'a' + ')' * 300, '(a*)*b', '\\\\x', '\\\\u12', '[[:alpha:]]', '(?a)(?u)x', '(?L)x', '']
+HUGE = ['1' + '0' * 400, '-1' + '0' * 400, '1e400', '-1e400', '1e-400', '0', '-1', '1.5', '"3"', 'true', 'null']
+
+
+def literal_matrix_items(tier):
+    types = MATRIX_TYPES if tier != 'quick' else MATRIX_TYPES
+    for t in types:
+        for v in MATRIX_LITERALS:
+            if t != 'Void':
+                yield 'matrix:default:%s=%s' % (t, v[:12]), [('m.stone', MATRIX_PREAMBLE + 'struct Hm\n    f %s = %s\n' % (t, v))]
+            yield 'matrix:example:%s=%s' % (t, v[:12]), [('m.stone', MATRIX_PREAMBLE + 'struct Hm\n    f %s\n\n    example default\n        f = %s\n' % (t if t != 'Void' else 'Int32', v))]
+            yield 'matrix:union-example:%s=%s' % (t, v[:12]), [('m.stone', MATRIX_PREAMBLE + 'union Hu\n    v0\n    f %s\n\n    example default\n        f = %s\n' % (t if t != 'Void' else 'Int32', v))]
+            if t != 'Void':
+                yield 'matrix:attr:%s=%s' % (t, v[:12]), [('cfg.stone', 'namespace stone_cfg\n\nimport mx\n\nstruct Route\n    k %s\n' % ('mx.' + t if t[0] == 'M' or t[0] == 'A' or t.startswith('List(M') else t)),
+                                                          ('m.stone', MATRIX_PREAMBLE + 'route r(Void, Void, Void)\n    attrs\n        k = %s\n' % v)]
+                yield 'matrix:annotation-arg:%s=%s' % (t, v[:12]), [('m.stone', MATRIX_PREAMBLE + 'annotation_type At\n    p %s\n\nannotation An = At(%s)\n\nannotation Ak = At(p=%s)\n\nstruct Hm\n    f Int32\n        @An\n' % (t, v, v))]
+    # route schema shapes
+    for body in ('union Route\n    a\n', 'struct Route\n    s mx.Ms\n', 'struct Route\n    l List(String)\n', 'struct Route\n    m Map(String, Int32)?\n', 'struct Route extends mx.Ms\n    z Int32?\n',
+                 'struct Route\n    union\n        x mx.Ms\n    z Int32?\n', 'alias Route = mx.Ms\n', 'struct Route\n    "doc"\n', 'struct Route\n    v Void\n', 'struct route\n    z Int32?\n',
+                 'struct Route\n    z Int32?\n\nstruct Route2\n    z Int32?\n', 'struct Route\n    t mx.Mtree?\n', 'struct Route\n    u mx.Mu = mv\n', 'struct Route\n    n mx.Anull\n    s mx.AnullS\n'):
+        for attrs in ('', '    attrs\n        z = 1\n', '    attrs\n        s = 1\n', '    attrs\n        u = mw\n', '    attrs\n        t = null\n', '    attrs\n        x = "a"\n'):
+            yield 'matrix:route-schema:%s/%s' % (body[:24].replace('\n', ' '), attrs.strip()[-8:]), [('cfg.stone', 'namespace stone_cfg\n\nimport mx\n\n' + body),
+                                                                                                     ('m.stone', MATRIX_PREAMBLE + 'route r(Void, Void, Void)\n' + attrs)]
+    # patterns and numeric type parameters
+    for p in BAD_PATTERNS:
+        yield 'matrix:pattern:%s' % p[:20], [('m.stone', 'namespace mx\n\nstruct Hm\n    f String(pattern="%s")\n' % p)]
+        yield 'matrix:pattern-default:%s' % p[:20], [('m.stone', 'namespace mx\n\nstruct Hm\n    f String(pattern="%s") = "a"\n' % p)]
+    for h in HUGE:
+        for t, k in (('Int32', 'min_value'), ('Int32', 'max_value'), ('UInt64', 'max_value'), ('Float64', 'min_value'), ('Float32', 'max_value'), ('String', 'min_length'),
+                     ('String', 'max_length'), ('List(Int32', 'min_items'), ('List(Int32', 'max_items'), ('Timestamp', '')):
+            if t.startswith('List'):
+                texpr = '%s, %s=%s)' % (t, k, h)
+            elif t == 'Timestamp':
+                texpr = 'Timestamp(%s)' % h
+            else:
+                texpr = '%s(%s=%s)' % (t, k, h)
+            yield 'matrix:param:%s:%s=%s' % (t, k, h[:8]), [('m.stone', 'namespace mx\n\nstruct Hm\n    f %s\n' % texpr)]
+            yield 'matrix:param-alias:%s:%s=%s' % (t, k, h[:8]), [('m.stone', 'namespace mx\n\nalias Al = %s\n\nstruct Hm\n    f Al?\n' % texpr)]
+    # reference shapes among aliases and imports
+    for lab, text in (('alias-cycle-nullable', 'alias Aa = Bb?\nalias Bb = Aa\n'), ('alias-cycle-nullable-3', 'alias Aa = Bb?\nalias Bb = Cc\nalias Cc = Aa\n'),
+                      ('alias-self-nullable', 'alias Aa = Aa?\n'), ('alias-cycle-list', 'alias Aa = List(Bb)\nalias Bb = Aa\nstruct S\n    f Aa\n'),
+                      ('alias-cycle-map', 'alias Aa = Map(String, Aa)\nstruct S\n    f Aa = null\n'), ('alias-self', 'alias Aa = Aa\n'),
+                      ('struct-self-field', 'struct S\n    f S\n'), ('struct-mutual-required', 'struct S\n    f T\nstruct T\n    g S\n'),
+                      ('example-ref-alias-nullable', 'struct T\n    x Int32\n    example default\n        x = 1\nalias AT = T?\nstruct S\n    t AT\n    example default\n        t = default\n'),
+                      ('example-ref-alias-list', 'struct T\n    x Int32\n    example default\n        x = 1\nalias AT = List(T)\nstruct S\n    t AT\n    example default\n        t = [default]\n'),
+                      ('example-ref-alias-map', 'struct T\n    x Int32\n    example default\n        x = 1\nalias AT = Map(String, T)\nstruct S\n    t AT\n    example default\n        t = {"k": default}\n'),
+                      ('example-ref-missing-label', 'struct T\n    x Int32\n    example default\n        x = 1\nstruct S\n    t T\n    example other\n        t = other\n'),
+                      ('example-self-ref', 'struct S\n    t S?\n    example default\n        t = default\n')):
+        yield 'matrix:refs:%s' % lab, [('m.stone', 'namespace mx\n\n' + text)]
+    for n in (2, 3, 4):
+        names = ['c%d' % i for i in range(n)]
+        yield 'matrix:import-cycle:%d' % n, [('%s.stone' % nm, 'namespace %s\n\nimport %s\n\nstruct X%d\n    f %s.X%d?\n' % (nm, names[(i + 1) % n], i, names[(i + 1) % n], (i + 1) % n)) for i, nm in enumerate(names)]
+        yield 'matrix:import-cycle-unused:%d' % n, [('%s.stone' % nm, 'namespace %s\n\nimport %s\n\nstruct X%d\n    f Int32\n' % (nm, names[(i + 1) % n], i)) for i, nm in enumerate(names)]
 
 
 POOL_LABELS = None
